@@ -98,6 +98,12 @@ CHECKS = {
                      "FOREACH, in CALL subqueries incl. nested ones, in UNION branches) are offered to ndb_query and ndb_execute_write and TLC "
                      "checks the gate decisions against ContainsWrite evaluated on the statement's clause tree.",
                 note="EXPLAIN and statements both entries reject as syntax errors are not judged"),
+    "C35": dict(ref="5 C35", tech="TLC model checking (Locks.tla) of K threads running the lock programs recorded from the real operations through the lock hooks, plus a watchdogged stress run",
+                text="Every public operation (engine level and Db/Cypher level) is run alone and from N threads with the lock hooks on; the "
+                     "acquire/release sequence of every call is a program.  Locks.tla runs K threads over every multiset of distinct programs "
+                     "and every interleaving with std Mutex / writer-preferring RwLock semantics; TLC's deadlock check and <>AllDone decide.  "
+                     "A gate-aware lock-order certificate (no compatible cycle of held->wanted edges) extends the result to any K when it holds.",
+                note="K = 2 quick, K = 3 thorough; the stress run (8 / 16 threads) is watched for 10 s without progress"),
     "C26": dict(ref="5 C26", tech="TLC model checking of BTree.tla + TLA+ trace validation (BTreeTrace) of the real B-tree",
                 text="BTree.tla transcribes insert/split/delete/cursor with page capacity 2; TLC checks scan/lookup/delete against the "
                      "sorted-multimap ghost exhaustively for unique keys, and reproduces the equal-keys defect whose counterexample is "
@@ -165,7 +171,7 @@ CHECKS = {
 }
 
 # properties whose check has been run green on the unchanged tree
-ENABLED = ["C01", "C02", "C03", "C04", "C05", "C06", "C07", "C08", "C09", "C10", "C11", "C12", "C13", "C14", "C15", "C17", "C19", "C20", "C21", "C22", "C23", "C24", "C26", "C27", "C28", "C29", "C30", "C32", "C33", "C34"]
+ENABLED = ["C01", "C02", "C03", "C04", "C05", "C06", "C07", "C08", "C09", "C10", "C11", "C12", "C13", "C14", "C15", "C17", "C19", "C20", "C21", "C22", "C23", "C24", "C26", "C27", "C28", "C29", "C30", "C32", "C33", "C34", "C35"]
 
 NOT_APPLICABLE = {
     "C16": "quantifies over arbitrary byte strings and resource exhaustion; no state machine to specify, a fuzzer's job (DESIGN.md 6)",
